@@ -18,6 +18,7 @@
 //     the loop left through its condition and not through the fuel;
 //   - primitives (hand-written in Tie/Prims.lean): int(math.Ceil(math.Sqrt(float64(e)))),
 //     binary.PutUvarint(buf, e) (its returned length), bitwise & on non-negative operands.
+//
 // Anything outside this subset makes the function UNSUPPORTED: no definition is emitted, the tie
 // for it fails to compile and the check reports the source tie of that function as not established.
 package main
@@ -102,8 +103,8 @@ type tr struct {
 	nloops  int
 	recv    string // receiver variable name if pointer receiver (state is threaded)
 	recvTy  string
-	results int  // number of Go results
-	isPtr   bool // pointer receiver: results are prefixed by the receiver
+	results int      // number of Go results
+	isPtr   bool     // pointer receiver: results are prefixed by the receiver
 	deps    []target // functions of the library this one calls (emitted first, on demand)
 }
 
